@@ -125,17 +125,9 @@ Definition E_state (P : list rule) (base : list (triple * N)) (rt : N -> option 
 Definition alive_base (base : list (triple * N)) (now : N) : Prop :=
   forall f e, In (f, e) base -> now < e /\ e <= INF.
 
-(* no annotated triple is listed twice with different expiries *)
-Definition functional_base (base : list (triple * N)) : Prop :=
-  forall f e e', In (f, e) base -> In (f, e') base -> e = e'.
-
 (* facts stay listed until they expire, and a re-arrival never shortens the expiry *)
 Definition base_consistent (base base' : list (triple * N)) (now' : N) : Prop :=
   forall f e, In (f, e) base -> now' < e -> exists e', In (f, e') base' /\ e <= e'.
-
-(* static facts (expiry INF) of the new base were static facts of the old one *)
-Definition static_stable (base base' : list (triple * N)) : Prop :=
-  forall f, In (f, INF) base' -> In (f, INF) base.
 
 (* ---- the quantifier of the property, as boolean predicates on streaming datasets ---------------- *)
 Fixpoint list_eqb {A : Type} (eqb : A -> A -> bool) (l l' : list A) : bool :=
@@ -177,29 +169,23 @@ Definition stays_listed (now' : N) (w w' : window) : bool :=
              else existsb (fun wt' : wtriple => key_eqb (wkey wt) (wkey wt') && (snd wt <=? snd wt')) (snd w'))
           (snd w).
 
-Definition sgraph_eqb (g g' : sgraph) : bool :=
-  str_eqb (fst g) (fst g') && list_eqb key_eqb (snd g) (snd g').
+(* every triple of static graph g is a triple of a static graph g' with the same IRI *)
+Definition sgraph_sub (g g' : sgraph) : bool :=
+  str_eqb (fst g) (fst g') && forallb (fun t => existsb (key_eqb t) (snd g')) (snd g).
+Definition statics_sub (G G' : list sgraph) : bool :=
+  forallb (fun g => existsb (sgraph_sub g) G') G.
 
 (* two consecutive contents of a history: the same windows (same IRI and width, listed in the same
-   order), static graphs and output IRIs; alive entries stay listed; every content lists a triple once *)
+   order) and output IRIs; static graphs keep their triples (they may gain some); alive entries stay
+   listed; every content lists a triple once *)
 Definition window_consistent (S S' : sds) (now' : N) : bool :=
   forall2b (stays_listed now') (windows S) (windows S') &&
   forallb listed_once (windows S') &&
-  list_eqb sgraph_eqb (statics S) (statics S') &&
+  statics_sub (statics S) (statics S') &&
   list_eqb str_eqb (outputs S) (outputs S').
 
-(* timestamps + width do not saturate u64 *)
-Definition no_overflow (S : sds) : bool :=
-  forallb (fun w : window => forallb (fun wt : wtriple => snd wt + snd (fst w) <? INF) (snd w)) (windows S).
-
-(* no annotated triple is listed twice with different expiries (within a window this is "listed
-   once"; across components it excludes IRI-prefix collisions such as window <a/> with local name
-   "b/p" against component <a/b/> with local name "p") *)
-Definition functional_b (l : list (triple * N)) : bool :=
-  forallb (fun x : triple * N => forallb (fun y : triple * N => negb (triple_eqb (fst x) (fst y)) || (snd x =? snd y)) l) l.
-
-Definition sds_ok (S : sds) (now : N) : bool :=
-  (now <? INF) && no_overflow S && functional_b (translate S now).
+(* evaluation times are below u64::MAX *)
+Definition sds_ok (S : sds) (now : N) : bool := now <? INF.
 
 (* a history of evaluations: strictly increasing times, consecutive contents window-consistent,
    every rule conclusion belongs to a component of every dataset *)
